@@ -120,6 +120,10 @@ class _FuncInline(SiteRewriter):
         self.recursive = recursive
 
         self.gensym = Gensym(self.def_use.names())
+        # a renamed callee local must not land on a free variable of the caller
+        # or of any function whose body may be spliced in after it
+        for fdef in CallGraph.analyze(func).nodes:
+            self.gensym.reserve(*fdef.free_vars)
         self.free_vars = set(func.free_vars)
         self.env = func.env.copy()
 
